@@ -7,6 +7,7 @@ import (
 	"sort"
 	"strings"
 	"testing"
+	"time"
 
 	"github.com/massnetorg/mass-core/massutil"
 	"github.com/massnetorg/mass-core/wire"
@@ -14,6 +15,7 @@ import (
 	"massnet.org/mass-wallet/masswallet/keystore"
 	"pgregory.net/rapid"
 	"verifharness/ev"
+	"verifharness/guard"
 	"verifharness/sim"
 )
 
@@ -192,6 +194,7 @@ func propC07(t *rapid.T) {
 	}
 	checkImporting()
 	changesDuringImport := 0
+	liveInterludes := 0
 	// new payments during the rescan go to addresses B knows (an address A issued but that had no history
 	// at restore time is not part of the restored wallet until the user asks for it again)
 	amB, err := envB.W.VerifKeystore().GetAddrManagerByAccountID(m.id)
@@ -258,6 +261,60 @@ func propC07(t *rapid.T) {
 			w.logf("reorg replacing heights >= %d (rescan cursor %d)", lowest, cursor)
 			w.forcedReorgDepth = int(int64(tip) - lowest + 1)
 			w.actReorg(t)
+		},
+		"liveInterludeB": func(t *rapid.T) {
+			// B is stopped, optionally misses many blocks, comes back through the REAL Start() (catch-up
+			// loop - with its fast-forward branch when no wallet is ready and it is > 2000 blocks behind -
+			// and both goroutines, so the rescan runs on its own), is stopped again at a drawn moment and
+			// continues in stepped mode.
+			if liveInterludes >= 2 {
+				t.Skip("enough restarts")
+			}
+			liveInterludes++
+			wasImporting := importing()
+			if err := envB.StopWallet(); err != nil {
+				t.Fatalf("HARNESS-ERROR: %v", err)
+			}
+			envB.Queue = nil
+			if (ev.Thorough() || rapid.IntRange(0, 3).Draw(t, "longGapQuick") == 0) && rapid.Bool().Draw(t, "longGap") {
+				for j := 0; j < 2050+rapid.IntRange(0, 300).Draw(t, "gapBlocks"); j++ {
+					blk := w.node.NewBlock(w.node.Tip(), nil, nil)
+					if err := w.node.Attach(blk); err != nil {
+						t.Fatalf("HARNESS: %v", err)
+					}
+				}
+				w.actMine(t, false)
+				w.actMine(t, true)
+				envB.Queue = nil
+				w.flag("restart-more-than-2000-behind")
+				if wasImporting {
+					w.flag("start-fast-forward-branch")
+				}
+				changesDuringImport++
+			}
+			if err := envB.Open(false); err != nil {
+				t.Fatalf("B does not open after a stop: %v", err)
+			}
+			if err := envB.W.Start(); err != nil {
+				t.Fatalf("B: WalletManager.Start: %v", err)
+			}
+			if s, err := envB.W.SyncedTo(); err != nil || s != w.node.Height() {
+				t.Fatalf("B: after Start() the wallet is synced to %d (%v), the node is at %d", s, err, w.node.Height())
+			}
+			time.Sleep(time.Duration(rapid.SampledFrom([]int{0, 0, 200, 1000, 5000, 30000}).Draw(t, "liveMicros")) * time.Microsecond)
+			o := guard.Call(40*time.Second, func() { envB.W.Stop() })
+			if o.Kind != "done" {
+				t.Fatalf("B: WalletManager.Stop() did not return (%s) while the restore was running\n%s", o.Kind, o.Stack)
+			}
+			if err := envB.Open(false); err != nil {
+				t.Fatalf("B does not open after Stop(): %v", err)
+			}
+			if err := envB.StartStepped(); err != nil {
+				t.Fatalf("HARNESS: %v", err)
+			}
+			wB.env = envB
+			w.flag("live-interlude")
+			w.logf("B live interlude (importing=%v)", importing())
 		},
 		"deliverA": w.actDeliver,
 		"deliverB": func(t *rapid.T) {
